@@ -2,6 +2,7 @@
 classes, and Python values for FREEZE / NEW / COPY / PICKLE.  Formats: Driver/Misc.lean."""
 from __future__ import annotations
 
+import collections.abc as _abc
 from typing import Any, Dict, List, Tuple
 
 from frozendict import frozendict
@@ -217,6 +218,25 @@ def enc_py(v: Any, stt: StrTable, canon: bool = False) -> str:
         return "o 0"
     if isinstance(v, float):
         return "o 1"
+    # look-alikes: the model's kinds are kinds of behaviour under isinstance — subclasses of the builtins
+    # were caught above (OrderedDict is a `d`, a namedtuple a `t`); what is left and is a
+    # collections.abc.Mapping is a `maplike` (M: mappingproxy, UserDict, ChainMap, user classes), what is a
+    # collections.abc.Set a `setlike` (V: dict views, user classes) — in the order of freeze_value's tests
+    if isinstance(v, _abc.Mapping):
+        items = [enc_py(k, stt, canon) + " " + enc_py(v[k], stt, canon) for k in list(v.keys())]
+        if canon:
+            items.sort()
+        return " ".join(["M", str(len(items))] + items)
+    if isinstance(v, _abc.Set):
+        items = [enc_py(x, stt, canon) for x in v]
+        if canon:
+            items.sort()
+        return " ".join(["V", str(len(items))] + items)
+    # a collections.abc.Sequence that is neither list nor tuple (nor str — above — nor bytes): `seqlike`
+    # (Q: UserList, deque, range, user classes)
+    if isinstance(v, _abc.Sequence) and not isinstance(v, bytes):
+        items = [enc_py(x, stt, canon) for x in v]
+        return " ".join(["Q", str(len(items))] + items)
     return "o 2"
 
 
@@ -229,15 +249,20 @@ def canon_py_line(line_tokens: List[str], i: int = 0) -> Tuple[str, int]:
     j = i + 2
     items = []
     for _ in range(n):
-        if tag in ("d", "D"):
+        if tag in ("d", "D", "M"):
             a, j = canon_py_line(line_tokens, j)
             b, j = canon_py_line(line_tokens, j)
             items.append(a + " " + b)
         else:
             a, j = canon_py_line(line_tokens, j)
             items.append(a)
-    if tag in ("d", "D", "S", "F"):
+    if tag in ("d", "D", "S", "F", "M", "V"):
         items.sort()
+    if tag in ("S", "F", "V"):
+        # the model's sets are lists used as sets: members that became equal (freezing a user Set that held
+        # both `deque([])` and `()`) are one member
+        items = [x for i, x in enumerate(items) if i == 0 or x != items[i - 1]]
+        n = len(items)
     return " ".join([tag, str(n)] + items), j
 
 
